@@ -202,24 +202,38 @@ type parseObs struct {
 	vbytes    map[string][]byte
 }
 
-func (w *worker) observeParse(v *vector, buf []byte) (o parseObs) {
+// doParse calls Session.Parse under recover (and under the hang marker).
+func (w *worker) doParse(buf []byte) (fr packet.Frame, err error, panicText string) {
+	begin("Parse")
+	defer end()
+	defer func() {
+		if e := recover(); e != nil {
+			panicText = fmt.Sprint(e)
+		}
+	}()
+	fr, err = w.s.Parse(buf)
+	return
+}
+
+func (w *worker) observeParse(v *vector, buf []byte) parseObs {
+	fr, err, p := w.doParse(buf)
+	return w.observeFrame(v, buf, fr, err, p, false)
+}
+
+// observeParseLight: outcome, addresses and Frame accessors only (no getters of the views).
+func (w *worker) observeParseLight(v *vector, buf []byte) parseObs {
+	fr, err, p := w.doParse(buf)
+	return w.observeFrame(v, buf, fr, err, p, true)
+}
+
+// observeFrame turns the result of one Parse call into an observation.
+func (w *worker) observeFrame(v *vector, buf []byte, fr packet.Frame, err error, panicText string, light bool) (o parseObs) {
 	o.addr = map[string]string{}
 	o.acc = map[string]callResult{}
 	o.bytes = map[string][]byte{}
 	o.views = map[string]viewObs{}
 	o.vbytes = map[string][]byte{}
-	var fr packet.Frame
-	var err error
-	func() {
-		begin("Parse")
-		defer end()
-		defer func() {
-			if e := recover(); e != nil {
-				o.panicText = fmt.Sprint(e)
-			}
-		}()
-		fr, err = w.s.Parse(buf)
-	}()
+	o.panicText = panicText
 	if o.panicText != "" {
 		return o
 	}
@@ -256,6 +270,9 @@ func (w *worker) observeParse(v *vector, buf []byte) (o parseObs) {
 		}
 		o.acc[m.Name] = whole.call("Frame."+m.Name, fv.Method(i))
 	}
+	if light {
+		return o
+	}
 	// the slices themselves (for the views and for C16)
 	get := func(name string, f func() []byte) {
 		defer func() { recover() }()
@@ -285,7 +302,7 @@ func (w *worker) observeParse(v *vector, buf []byte) (o parseObs) {
 }
 
 // components lists the observation as ordered (component, text) pairs for the comparison across buffers.
-func (o parseObs) components() [][3]string {
+func (o parseObs) components(light bool) [][3]string {
 	var out [][3]string
 	add := func(view, g, val string) { out = append(out, [3]string{view, g, val}) }
 	add("Parse", "panic", o.panicText)
@@ -301,6 +318,9 @@ func (o parseObs) components() [][3]string {
 	sort.Strings(acc)
 	for _, k := range acc {
 		add("Frame", k, o.acc[k].val)
+	}
+	if light {
+		return out
 	}
 	vs := make([]string, 0, len(o.views))
 	for k := range o.views {
@@ -435,6 +455,105 @@ func (w *worker) checkViews(v *vector, views map[string]viewObs, vbytes map[stri
 	}
 }
 
+// staleFrame: a complete well-formed frame of one family, as a previous packet in a reused receive buffer.
+func (w *worker) staleFrame(family int, rng *rand.Rand) []byte {
+	var s pshape
+	switch family % 4 {
+	case 0:
+		s = pshape{Path: "ip4", Src: "client", Sip: "lan", Etype: 0x0800, Flen: 14 + 20 + 8 + 40, Ihl: 5, Tl: 68, Proto: 17, Sport: 40000, Dport: 53}
+	case 1:
+		s = pshape{Path: "ip6", Src: "client", Sip: "lla", Etype: 0x86dd, Flen: 14 + 40 + 8 + 30, Pl: 38, Proto: 17, Sport: 5353, Dport: 5353}
+	case 2:
+		s = pshape{Path: "arp", Src: "client", Sip: "lan", Etype: 0x0806, Flen: 60, Hlen: 6, Plen: 4}
+	default:
+		s = pshape{Path: "ip4", Src: "router", Sip: "routerip", Etype: 0x0800, Flen: 14 + 20 + 8 + 32, Ihl: 5, Tl: 60, Proto: 1, Itype: 0}
+	}
+	return buildFrame(&s, rng, w.u, true)
+}
+
+// reusedBuffer places data at the start of a receive buffer that still holds the rest of a previously
+// received, complete and well-formed frame (same offsets): the normal situation of a read loop that
+// reuses its buffer.  The family of the stale frame follows the EtherType of data so that a header cut
+// short by len is completed by stale header bytes beyond len.
+func (w *worker) reusedBuffer(data []byte, s *pshape, k int, rng *rand.Rand) tbuf {
+	fam := k
+	switch s.Etype {
+	case 0x0800:
+		fam = 0
+	case 0x86dd:
+		fam = 1
+	case 0x0806:
+		fam = 2
+	}
+	stale := w.staleFrame(fam, rng)
+	n := len(data) + 64
+	if len(stale) > n {
+		n = len(stale)
+	}
+	full := make([]byte, n)
+	rng.Read(full)
+	copy(full, stale)
+	saved := make([]byte, n)
+	copy(saved, full)
+	copy(full, data)
+	return tbuf{b: full[:len(data)], poison: func(i int) byte { return saved[i] }}
+}
+
+// checkOutcome (C02): error-ness, PayloadID, addresses, presence and start offset of the views and of
+// the payload against ParseOutcome(shape).  `seen` suppresses the same report for the other buffers
+// of one concrete case.  Returns false when nothing further can be compared.
+func (w *worker) checkOutcome(v *vector, o *outcome, a parseObs, data []byte, how string, seen map[string]bool) bool {
+	rep := func(what, view, g, exp, got string) {
+		if !seen[what+view+g] {
+			seen[what+view+g] = true
+			w.mm(v, "C02", what, view, g, exp, got+how, data)
+		}
+	}
+	w.cnt["outcomes_compared"]++
+	w.nt |= 2
+	if a.err != o.Err {
+		rep("err", "Parse", "", strconv.FormatBool(o.Err), strconv.FormatBool(a.err))
+	}
+	if a.err || o.Err {
+		return !a.err
+	}
+	if a.id != o.ID {
+		rep("id", "Parse", "PayloadID", strconv.Itoa(o.ID), strconv.Itoa(a.id))
+	}
+	exp := w.expectedAddrs(o, data)
+	for _, kk := range sortedKeys(exp) {
+		if exp[kk] != a.addr[kk] {
+			rep("addr", "Parse", kk, exp[kk], a.addr[kk])
+		}
+	}
+	if hv := a.acc["HasIP"].val; hv != strconv.FormatBool(o.HasIP) {
+		rep("addr", "Parse", "HasIP", strconv.FormatBool(o.HasIP), hv)
+	}
+	for _, p := range [][2]interface{}{{"IP4", o.IP4}, {"IP6", o.IP6}, {"UDP", o.UDP}, {"TCP", o.TCP}, {"Payload", o.Pay}} {
+		name, off := p[0].(string), p[1].(int)
+		got := a.acc[name].val
+		if a.acc[name].panicky {
+			continue
+		}
+		want := "[]"
+		if off > 0 && off < len(data) {
+			want = rangeText(off, len(data))
+		}
+		// property level: presence and start offset; the end (= end of frame) is mechanism level
+		if (want == "[]") != (got == "[]") || (want != "[]" && startOf(got) != off) {
+			rep("off", "Frame", name, want, got)
+		} else if want != got && !seen["view-end"+name] {
+			seen["view-end"+name] = true
+			w.drift(v, "view-end", name, want, got)
+		}
+	}
+	if a.host != o.Tracked && !seen["tracked"] {
+		seen["tracked"] = true
+		w.drift(v, "tracked", "Parse", strconv.FormatBool(o.Tracked), strconv.FormatBool(a.host))
+	}
+	return true
+}
+
 func (w *worker) runParse(v *vector) {
 	s, o := v.S, v.O
 	for k := 0; k < w.k; k++ {
@@ -444,29 +563,45 @@ func (w *worker) runParse(v *vector) {
 		}
 		rng := caseRand(w.seed, k, s)
 		data := buildFrame(s, rng, w.u, false)
+		seen := map[string]bool{}
 		if s.App == "echo-waiter" {
-			w.echoWaiter(v, s, data)
+			w.echoWaiter(v, s, o, data, seen)
 		}
-		bufs := threeBuffers(data, rng)
-		var obs [3]parseObs
+		three := threeBuffers(data, rng)
+		// four buffers: cap==len, two poisoned tails, and a reused receive buffer with a stale frame behind len
+		bufs := []tbuf{three[0], three[1], three[2], w.reusedBuffer(data, s, k, rng)}
+		how := []string{"", " (cap>len, poison 1)", " (cap>len, poison 2)", " (reused receive buffer: a previous well-formed frame lies beyond len)"}
+		obs := make([]parseObs, len(bufs))
 		for i := range bufs {
-			obs[i] = w.observeParse(v, bufs[i].b)
+			if i < 3 {
+				obs[i] = w.observeParse(v, bufs[i].b)
+			} else {
+				obs[i] = w.observeParseLight(v, bufs[i].b)
+			}
 			w.cnt["parses"]++
 			w.nt |= 1
 		}
 		w.cnt["cases"]++
 		a := obs[0]
 		// ---- C01: totality, independence from spare capacity, containment ----
-		ca := a.components()
-		for i := 1; i < 3; i++ {
-			if view, g, x, y, d := firstDiff(ca, obs[i].components()); d {
-				w.mm(v, "C01", "cap", view, g, "cap==len: "+x, "cap>len: "+y, data)
+		for i := 1; i < len(obs); i++ {
+			light := i >= 3
+			if view, g, x, y, d := firstDiff(a.components(light), obs[i].components(light)); d {
+				w.mm(v, "C01", "cap", view, g, "cap==len: "+x, "cap>len: "+y+how[i], data)
 				break
 			}
 		}
 		for i := range bufs {
 			if !bufs[i].tailIntact() {
 				w.mm(v, "C01", "tail", "Parse", "", "spare capacity untouched", "modified", data)
+			}
+		}
+		// ---- C01: the result depends only on the bytes: the same bytes after an unrelated frame ----
+		if _, _, p := w.doParse(w.staleFrame(k+v.ID, rng)); p == "" {
+			again := w.observeParseLight(v, append([]byte{}, data...))
+			w.cnt["parses"] += 2
+			if view, g, x, y, d := firstDiff(a.components(true), again.components(true)); d {
+				w.mm(v, "C01", "state", view, g, "first parse: "+x, "same bytes after another frame: "+y, data)
 			}
 		}
 		// report panics / escapes on the buffer that shows them (spare capacity can hide a panic)
@@ -506,54 +641,19 @@ func (w *worker) runParse(v *vector) {
 				w.drift(v, "mechanism", "Parse", fmt.Sprintf("%+v", *m), fmt.Sprintf("panic=%q err=%v id=%d", rep.panicText, a.err, a.id))
 			}
 		}
-		if rep.panicText != "" {
-			continue
-		}
-		// ---- C02: outcome ----
-		w.cnt["outcomes_compared"]++
-		w.nt |= 2
-		if a.err != o.Err {
-			w.mm(v, "C02", "err", "Parse", "", strconv.FormatBool(o.Err), strconv.FormatBool(a.err), data)
-		}
-		if a.err {
-			continue
-		}
-		// views and getters are checked whenever the real Parse accepted the frame
-		w.checkViews(v, a.views, a.vbytes, v.Ranges, data)
-		if o.Err {
-			continue
-		}
-		if a.id != o.ID {
-			w.mm(v, "C02", "id", "Parse", "PayloadID", strconv.Itoa(o.ID), strconv.Itoa(a.id), data)
-		}
-		exp := w.expectedAddrs(o, data)
-		for _, kk := range sortedKeys(exp) {
-			if exp[kk] != a.addr[kk] {
-				w.mm(v, "C02", "addr", "Parse", kk, exp[kk], a.addr[kk], data)
-			}
-		}
-		if hv := a.acc["HasIP"].val; hv != strconv.FormatBool(o.HasIP) {
-			w.mm(v, "C02", "addr", "Parse", "HasIP", strconv.FormatBool(o.HasIP), hv, data)
-		}
-		for _, p := range [][2]interface{}{{"IP4", o.IP4}, {"IP6", o.IP6}, {"UDP", o.UDP}, {"TCP", o.TCP}, {"Payload", o.Pay}} {
-			name, off := p[0].(string), p[1].(int)
-			got := a.acc[name].val
-			if a.acc[name].panicky {
+		// ---- C02: outcome in every buffer; getters of the views in the first ----
+		for i := range obs {
+			if obs[i].panicText != "" {
 				continue
 			}
-			want := "[]"
-			if off > 0 && off < len(data) {
-				want = rangeText(off, len(data))
-			}
-			// property level: presence and start offset; the end (= end of frame) is mechanism level
-			if (want == "[]") != (got == "[]") || (want != "[]" && startOf(got) != off) {
-				w.mm(v, "C02", "off", "Frame", name, want, got, data)
-			} else if want != got {
-				w.drift(v, "view-end", name, want, got)
+			accepted := w.checkOutcome(v, o, obs[i], data, how[i], seen)
+			if i == 0 && accepted {
+				// views and getters are checked whenever the real Parse accepted the frame
+				w.checkViews(v, a.views, a.vbytes, v.Ranges, data)
 			}
 		}
-		if a.host != o.Tracked {
-			w.drift(v, "tracked", "Parse", strconv.FormatBool(o.Tracked), strconv.FormatBool(a.host))
+		if rep.panicText != "" || a.err || o.Err {
+			continue
 		}
 		// ---- C16: aliasing at the specification's offsets, writes visible both ways ----
 		w.checkAlias(v, o, obs[1], bufs[1].b, data)
@@ -565,9 +665,11 @@ func (w *worker) runParse(v *vector) {
 
 // echoWaiter puts a ping in flight (Session.Ping in a goroutine registers a waiter in the
 // process-wide table), writes the waiter's id into the echo message and parses it twice back to
-// back: a duplicated reply must not make Parse panic.  The frame then goes through the normal
-// three-buffer observation as well.
-func (w *worker) echoWaiter(v *vector, s *pshape, data []byte) {
+// back: the first delivery happens WHILE the ping is pending, the second is a duplicate.  Neither
+// may panic (C01) and both must decode exactly as the reference says (C02): the outcome of Parse
+// must not depend on the process-global waiter table.  The frame then goes through the normal
+// observation as well (waiter gone).
+func (w *worker) echoWaiter(v *vector, s *pshape, o *outcome, data []byte, seen map[string]bool) {
 	before := map[uint16]bool{}
 	for _, id := range packet.VerifPingWaiterIDs() {
 		before[id] = true
@@ -588,27 +690,39 @@ func (w *worker) echoWaiter(v *vector, s *pshape, data []byte) {
 		w.cnt["echo_waiter_not_registered"]++
 		return
 	}
-	o := 54
+	off := 54
 	if s.Path == "ip4" {
-		o = 14 + 4*s.Ihl
+		off = 14 + 4*s.Ihl
 	}
-	if o+6 > len(data) {
+	if off+6 > len(data) {
 		return
 	}
-	data[o+4], data[o+5] = byte(id>>8), byte(id)
+	data[off+4], data[off+5] = byte(id>>8), byte(id)
 	w.cnt["echo_waiter_cases"]++
-	buf := append([]byte{}, data...)
-	func() {
-		begin("Parse")
-		defer end()
-		defer func() {
-			if e := recover(); e != nil {
-				w.mm(v, "C01", "panic", "Parse", "", "returns (echo message parsed twice while a ping waiter with its id is registered)", "PANIC: "+fmt.Sprint(e), data)
-			}
-		}()
-		w.s.Parse(buf)
-		w.s.Parse(buf)
-	}()
+	buf1 := append([]byte{}, data...)
+	buf2 := append([]byte{}, data...)
+	// two deliveries back to back (before the pinging goroutine gets to run), observed afterwards
+	fr1, err1, p1 := w.doParse(buf1)
+	fr2, err2, p2 := w.doParse(buf2)
+	w.cnt["parses"] += 2
+	for i, p := range []string{p1, p2} {
+		if p != "" {
+			w.mm(v, "C01", "panic", "Parse", "", "returns (echo message, delivery "+strconv.Itoa(i+1)+" while a ping waiter with its id is registered)", "PANIC: "+p, data)
+		}
+	}
+	o1 := w.observeFrame(v, buf1, fr1, err1, p1, true)
+	o2 := w.observeFrame(v, buf2, fr2, err2, p2, true)
+	if p1 == "" {
+		w.checkOutcome(v, o, o1, data, " (first delivery while the ping is pending)", seen)
+	}
+	if p2 == "" {
+		w.checkOutcome(v, o, o2, data, " (second delivery of the same echo message)", seen)
+	}
+	if p1 == "" && p2 == "" { // C01: the result depends only on the bytes, not on the waiter table
+		if view, g, x, y, d := firstDiff(o1.components(true), o2.components(true)); d {
+			w.mm(v, "C01", "state", view, g, "while a ping with this id is pending: "+x, "same bytes delivered again: "+y, data)
+		}
+	}
 }
 
 func sortedAcc(m map[string]callResult) []string {
